@@ -404,7 +404,7 @@ func genAtom(r *rng.R, vnr, asdep bool) *Atom {
 }
 
 func genDast(r *rng.R, depth int) *Dast {
-	if depth <= 0 || r.Chance(2, 5) {
+	if depth <= 0 || r.Chance(1, 3) {
 		return &Dast{Atom: genAtom(r, true, true)}
 	}
 	d := &Dast{Kind: 1 + r.Intn(6)}
@@ -412,8 +412,8 @@ func genDast(r *rng.R, depth int) *Dast {
 		d.Flag = r.Pick(flagNames)
 	}
 	n := r.Heavy(4)
-	if r.Chance(1, 3) && depth > 1 {
-		n = 1 // chains give depth
+	if r.Chance(1, 2) && depth > 1 {
+		n = 1 + r.Intn(2) // chains give depth
 	}
 	for ; n > 0; n-- {
 		d.Items = append(d.Items, genDast(r, depth-1))
@@ -646,7 +646,7 @@ func Generate(r *rng.R, tier string, n int, emit func(*common.Case)) {
 			var items []*Dast
 			var toks, terms []string
 			for m := cr.Heavy(4); m > 0; m-- {
-				d := genDast(cr, 1+cr.Heavy(5))
+				d := genDast(cr, 1+cr.Heavy(6))
 				items = append(items, d)
 				toks = append(toks, d.Tokens()...)
 				terms = append(terms, d.Coq())
